@@ -76,7 +76,6 @@ MUTANTS = [
     M("sh1-exit-early", "rand_obj.py", "__exit__", "leave_expr_mode()", "pass", ["C16", "C06", "C18"], "SH1"),
     M("sh1-no-pop-on-raise", "rand_obj.py", "build_field_model", "pop_constraint_scope()\nclear_exprs()\nraise e", "raise e", ["C16"], "SH1", count=3),
     M("sh4-dispose-rand-only", "model/randomizer.py", "Randomizer.randomize", "rs.all_fields()", "rs.rand_fields()", ["C16"], "SH4", count=3),
-    M("sh4-no-failure-reset", "model/randomizer.py", "Randomizer.randomize", "for c in rs.soft_constraints():\n    c.accept(reset_v)", "pass", [], "SH4"),
     M("sh4-no-reset-override", "model/expr_array_sum_model.py", "ExprArraySumModel.reset", "self.arr.sum_expr_btor = None", "pass", ["C16"], "SH4"),
     M("sz1-no-sum-reset", "model/field_array_model.py", "FieldArrayModel.post_randomize", "self.sum_expr = None", "pass", ["C04"], "SZ1"),
     M("cb1-ignore-used-rand", "model/field_composite_model.py", "FieldCompositeModel.pre_randomize", "self.is_used_rand and self.rand_if is not None", "self.rand_if is not None", ["C17"], "CB1"),
@@ -126,6 +125,28 @@ MUTANTS = [
     M("bd6-enum-unsorted", "model/variable_bound_enum_model.py", "VariableBoundEnumModel.__init__", "self.domain.range_l.sort(key=lambda e: e[0])", "pass", ["C14"], "BD6"),
     M("cv15-foreign-at-least", "visitors/coverage_save_visitor.py", "CoverageSaveVisitor.visit_coverpoint_cross", "cr.options.at_least", "cp.options.at_least", ["C13"], "CV15"),
     M("nm1-memo", "model/expr_indexed_field_ref_model.py", "ExprIndexedFieldRefModel.get_target", "ret = fm", "ret = fm\nself._memo = fm", ["C08"], "NM1"),
+    M("fold-scope-overwrite", "model/constraint_scope_model.py", "ConstraintScopeModel.build", "ret = btor.And(ret, b)", "ret = b", ["C01", "C05"], "FOLD"),
+    M("lw11-uncopied-cond", "visitors/constraint_copy_builder.py", "ConstraintCopyBuilder.visit_constraint_implies", "ConstraintImpliesModel(self.expr(c.cond))",
+      "ConstraintImpliesModel(c.cond)", ["C02", "C04"], "LW11"),
+    M("lw11-wrong-slot", "visitors/constraint_copy_builder.py", "ConstraintCopyBuilder.visit_constraint_if_else", "ConstraintCollector(self, ret.false_c)",
+      "ConstraintCollector(self, ret.true_c)", ["C04"], "LW11"),
+    M("rn7-no-lock", "model/randomizer.py", "Randomizer.randomize", "uf.set_used_rand(False)", "pass", ["C03"], "RN7"),
+    M("lw12-width-as-soft", "model/expr_dynref_model.py", "ExprDynRefModel.build", "self.c.build(btor)", "self.c.build(btor, ctx_width)", ["C06"], "LW12"),
+    M("fe1-stale-register", "visitors/foreach_ref_expander.py", "ForeachRefExpander.visit_expr_array_subscript", "int(s.rhs.val())", "int(self._expr.val())", ["C08"], "FE1"),
+    M("clone-no-at-least", "model/coverage_options_model.py", "CoverageOptionsModel.clone", "ret.at_least = self.at_least", "pass", ["C12"], "CLONE"),
+    M("bd7-wrong-operand", "visitors/variable_bound_visitor.py", "VariableBoundVisitor.visit_expr_bin", "self.lhsnre_rhsvar_propagator(e.lhs, e.op, rhs_bounds)",
+      "self.lhsnre_rhsvar_propagator(e.rhs, e.op, rhs_bounds)", ["C14"], "BD7"),
+    M("ds3-untyped-literal", "model/solvegroup_swizzler_partsel.py", "SolveGroupSwizzlerPartsel.swizzle_field", "ExprLiteralModel(val, f.is_signed, f.width)",
+      "ExprLiteralModel(val, False, 32)", ["C15"], "DS3"),
+    M("ft13-twin-differs", "types.py", "type_base.set_val", "val & 1 << self.width - 1 != 0", "val > 1 << self.width - 1", ["C18"], "FT13"),
+    M("cv8b-no-length", "model/wildcard_binspec.py", "WildcardBinspec.equals", "eq &= len(self.specs) == len(oth.specs)", "pass", ["C19", "C12"], "CV8b"),
+    M("fold2-replace-list", "model/solvegroup_swizzler_partsel.py", "SolveGroupSwizzlerPartsel.swizzle_field_l", "swizzle_node_l.append(e.build(btor))",
+      "swizzle_node_l = [e.build(btor)]", ["C20"], "FOLD2"),
+    M("st5-salted-hash", "model/rand_state.py", "RandState.mkFromSeed", "seed = f'{seed} : {strval}'", "seed = hash(strval)", ["C09"], "ST5"),
+    M("lw8-inherit-unary", "visitors/x_expr_evaluator.py", "XExprEvaluator.visit_expr_unary", "e.expr.accept(self)", "ModelVisitor.visit_expr_unary(self, e)", ["C02"], "LW8"),
+    M("lw10-no-expr", "visitors/array_constraint_builder.py", "ArrayConstraintBuilder.visit_expr_array_sum", "self._expr = s", "pass", ["C01", "C02"], "LW10"),
+    M("ft10-no-truncate", "model/field_array_model.py", "FieldArrayModel.post_randomize", "del self.field_l[int(self.size.get_val()):]", "pass", ["C04"], "FT10"),
+    M("cv16-store-raw", "model/wildcard_binspec.py", "WildcardBinspec.__init__", "self.specs.append((s[0] & s[1], s[1]))", "self.specs.append((s[0], s[1]))", ["C19"], "CV16"),
 ]
 
 # behaviour-preserving rewrites: must stay silent for every property
